@@ -245,6 +245,31 @@ for _fr in (0, 1, 0x0fff, 0x1000, 0x1001, 0x1fff):
   FRAG_UNITS[_fr] = unit(P, target=PK + "ipv4:ipv4.hdr/checksum/parse (payload of another protocol, any length)")(_u)
 
 
+@unit(P, target=PK + "packet_base:packet_base.set_payload, udp:udp.checksum (a header moved into another packet)")
+def a_udp_header_moved_into_another_ip_packet_is_summed_over_its_new_addresses(b):
+  """added 2026-09-25 after seeded change C14_10 let set_payload keep a payload's OLD parent: a udp / tcp header taken out of a
+  parsed (or earlier built) packet and put under a new IPv4 header was then checksummed over the old packet's addresses"""
+  sp, dp = b.int("udp.srcport", 1024, 4000), b.int("udp.dstport", 1024, 4000)
+  data = payload_bytes(b, maxlen=1400)
+  n = len(data) if b.mode == "conc" else data.length()
+  u = b.new(udp)
+  b.set(u, "srcport", sp)
+  b.set(u, "dstport", dp)
+  b.run(udp.set_payload, u, data)
+  old = b.new(ipv4)
+  b.set(old, "protocol", 17)
+  b.set(old, "srcip", b.new(IPAddr, b.bytes("old.src", 4)))
+  b.set(old, "dstip", b.new(IPAddr, b.bytes("old.dst", 4)))
+  b.run(ipv4.set_payload, old, u)                     # the header belongs to another packet first
+  ip, f, sip, dip = ip_header(b, 17, u)               # ... and is then made the payload of this one
+  e, _, (dst, src) = ether(b, 0x0800, ip)
+  ulen = 8 + n
+  return Case(_rt, [e], calls=cs_spec(b), ensures={
+    "udp_checksum_covers_the_pseudo_header_of_the_packet_it_is_sent_in":
+      lambda res: cs_calls(b)[0][0] == sip + dip + bytes([0, 17]) + be(ulen, 2) + be(sp, 2) + be(dp, 2) + be(ulen, 2) + bytes(2) + data,
+  })
+
+
 def _mk_ipv4_options(hl):
   """IPv4 header with options (hl words): total length and checksum cover the options; parse returns them"""
   @unit(P, target=PK + "ipv4:ipv4.hdr/checksum/parse (header with options)", name="ipv4_with_%d_option_bytes_udp" % ((hl - 5) * 4))
